@@ -296,3 +296,31 @@ def run(ctx):
                 if vs[0] == 'const':
                     ctx.ob('C23-D3', name, 'check_progress(step=%d,total=var)' % vs[1], 'step >= 1', vs[1] >= 1, site=loc(t['span']), nontrivial=False)
     ctx.floor('literal (step,total) checkpoint sites', nlit, 10, rule='C23-D3')
+    # ---- D4 chunked hashing: one callback per chunk read, so the announced total per range must be the ceiling of (range length / chunk size)
+    # with the same chunk size the read loop uses (step <= total needs it; floor(len/chunk).max(1) is one short for a partial last chunk)
+    HF = 'utils::hash_utils::hash_stream_by_alg_with_progress_impl'
+    if ctx.require(prog.has(HF), HF):
+        hf = prog.fn(HF)
+        chunk_bound = set()
+        for bi, t in hf.calls():
+            if re.search(r'cmp::min$|Ord::min$', t['fd']):
+                m = re.match(r'^min\((.*),(.*)\)$', T.call_term(hf, bi))
+                if m:
+                    chunk_bound.add(re.sub(r'^NonZero::get\((.*)\)$', r'\1', m.group(2)))
+        ceils = []
+        for n2 in prog.fns():
+            if n2 == HF or n2.startswith(HF + '::{closure'):
+                f2 = prog.fn(n2)
+                for bi, t in f2.calls():
+                    if t['fd'].endswith('::div_ceil'):
+                        ceils.append(T.call_term(f2, bi))
+                for blk in f2.B:
+                    for dst, rv in blk['s']:
+                        if rv['k'] == 'bin' and rv['op'] == 'Div':
+                            a, b2 = T.op_term(f2, rv['a']), T.op_term(f2, rv['b'])
+                            if re.search(r'addwithoverflow\(.*subwithoverflow\(%s,1\)' % re.escape(b2), a):
+                                ceils.append('div_ceil(%s,%s)' % (a, b2))
+        ok = any(any(c.endswith(',%s)' % cb) for cb in chunk_bound) and re.search(r'RangeInclusive::end\(', c) for c in ceils)
+        ctx.ob('C23-D4', HF, 'total announced for the Hashing phase', 'sum over ranges of ceil(range length / chunk size), chunk size = the bound of the read buffer', ok,
+               detail='ceil divisions: %s; chunk bound: %s' % ([c[:90] for c in ceils], sorted(chunk_bound)))
+
